@@ -94,10 +94,6 @@ theorem Cache.set_all {V : Type} (P : String → V → Prop) (c : Cache V) (k : 
 
 def keysOf {V : Type} (l : List (String × V)) : List String := l.map (·.1)
 
-/-- reference: drop the key, append it as most recent, keep the `size` most recent entries -/
-def specTouch {V : Type} (size : Nat) (k : String) (v : V) (l : List (String × V)) : List (String × V) :=
-  let l' := l.filter (fun p => p.1 ≠ k) ++ [(k, v)]
-  l'.drop (l'.length - size)
 
 theorem odGet_none_of_not_mem {V : Type} (k : String) (l : List (String × V)) (h : k ∉ keysOf l) :
     odGet k l = none := by
@@ -477,20 +473,6 @@ theorem expandListC_sim (hver : VerOK vf) (hold : OldOK vf W old) (fuel : Nat) (
 end
 
 
-
-theorem mapE_ok_mem {α β ε : Type} (g : α → Except ε β) (l : List α) (bs : List β) (h : mapE g l = .ok bs) :
-    ∀ b, b ∈ bs → ∃ a, a ∈ l ∧ g a = .ok b := by
-  induction l generalizing bs with
-  | nil => simp [mapE] at h; subst h; intro b hb; cases hb
-  | cons a as ih =>
-    rw [mapE_ok_cons_iff] at h
-    obtain ⟨b0, bs0, h1, h2, rfl⟩ := h
-    intro b hb
-    cases List.mem_cons.1 hb with
-    | inl e => subst e; exact ⟨a, List.mem_cons_self, h1⟩
-    | inr hm =>
-      obtain ⟨a', ha', hg⟩ := ih bs0 h2 b hm
-      exact ⟨a', List.mem_cons_of_mem _ ha', hg⟩
 
 section
 variable (vf : VerFns) (W : World)
